@@ -15,6 +15,12 @@ Oracle (model-independent), on the implementation's behaviour:
     trees with partial layout, e.g. parsed queries edited by hand): parser.parse(str(auto_head_tail(t))) == t.
     Failures are classified by executable predicates on the INPUT (F4, F15); anything else is a violation.
 
+The proved round trip (props/C13r.v, `C13_round_trip_partial`): the guard `AhtRoundTrip.rt_ok` is evaluated ON THE
+MODEL for every case that has a result, and every case inside the guard must round-trip on the implementation
+(`chk_rt`, with a canary: an in-guard tree whose recorded outcome is corrupted must be reported); how many
+generated trees are inside the guard is measured (`rt_ok_cases`), with a second canary (a tree known to be
+inside must be counted).
+
 Inputs: single calls on fresh trees (corpus, random, grammar-shaped); parsed queries edited by hand (operands
 appended / inserted / replaced by layout-free nodes, .expr/.a/.low/.high reassigned, hand-made parents), so
 that positioned composite nodes have children without head/tail; call HISTORIES: 2-3 consecutive calls of the
@@ -528,10 +534,11 @@ def correspond(model_ok, res):
     gg = GrammarGen(r, T)
 
     cases, payloads = [], []
+    rt_cases, rt_payloads = [], []       # (input, implementation's round trip) for the proved guard rt_ok
     seen = set()
     dist = {"kind": {}, "aht_raises": 0, "expressible_layout_free": 0, "expressible_blank_layout": 0,
             "roundtrip_holds": 0, "f4": 0, "f15": 0, "unmodelled": 0, "filled_somewhere": 0,
-            "history_steps": 0, "positioned_parent_of_bare_child": 0}
+            "history_steps": 0, "positioned_parent_of_bare_child": 0, "rt_ok_cases": 0}
 
     def call(tree):
         """ONE call of auto_head_tail and nothing else that could touch the transformer: the input is serialised
@@ -623,6 +630,10 @@ def correspond(model_ok, res):
             rec["before"], expected, lib.g_bool(exp_free), lib.g_bool(f4), lib.g_bool(f15),
             "None" if rt is None else "(Some %s)" % lib.g_bool(rt)))
         payloads.append(pay)
+        if rt is not None:
+            rt_cases.append("(%s, %s)" % (rec["before"], lib.g_bool(rt)))
+            rt_payloads.append(dict(pay, why="inside the proved guard rt_ok (C13_round_trip_partial) but the "
+                                             "implementation's round trip fails: %r %s" % (s, rt_why)))
         if rec["desc"] not in seen and gentree.count_nodes(keep) > 1:
             seen.add(rec["desc"])
 
@@ -762,22 +773,61 @@ def correspond(model_ok, res):
     for i in bad:
         if i < len(cases):
             res.disagreements.append(payloads[i])
+
+    # ---- the proved round trip: inside the guard rt_ok (evaluated on the model) the implementation round-trips
+    inside = T.AndOperation(T.Word("a"), T.Group(T.OrOperation(T.Word("b"), T.Phrase('"c d"'))))
+    g_inside = lib.g_item(inside)
+    defs_rt = ("Definition chk_rt (c : item * bool) : bool := let '(t, b) := c in negb (rt_ok t) || b.\n"
+               "Definition chk_out (c : item * bool) : bool := let '(t, _) := c in negb (rt_ok t).")
+    try:
+        # canary 1: an in-guard tree recorded as NOT round-tripping must be reported
+        bad_rt = lib.eval_cases("C13", "Base Decimal Tree TreeEq AutoHeadTail AhtRoundTrip", defs_rt,
+                                rt_cases + ["(%s, false)" % g_inside], "chk_rt", shard=120)
+        # which cases are inside the guard (canary 2: the in-guard tree must be counted)
+        in_rt = lib.eval_cases("C13", "Base Decimal Tree TreeEq AutoHeadTail AhtRoundTrip", defs_rt,
+                               rt_cases + ["(%s, true)" % g_inside], "chk_out", shard=120)
+    except Exception as e:
+        res.model_error = str(e)
+        return res
+    if len(rt_cases) not in bad_rt or len(rt_cases) not in in_rt:
+        res.model_error = "canary not detected: the rt_ok comparison is vacuous"
+    dist["rt_ok_cases"] = len([i for i in in_rt if i < len(rt_cases)])
+    if dist["rt_ok_cases"] < 20:
+        res.model_error = "only %d generated trees are inside the guard rt_ok" % dist["rt_ok_cases"]
+    for i in bad_rt:
+        if i < len(rt_cases):
+            res.failures.append((rt_payloads[i], None))
     return res
 
 
 SPEC = {
     "id": "C13",
     "targets": ["props/C13.vo"],
-    "model_targets": ["model/AutoHeadTail.vo", "model/TreeEq.vo"],
+    "model_targets": ["model/AutoHeadTail.vo", "model/TreeEq.vo", "model/AhtRoundTrip.vo"],
     "module": "C13",
     "theorems": ["C13_fails_exactly", "C13_equal_to_input", "C13_only_fills_empty", "C13_idempotent",
                  "C13_roundtrip_refuted", "C13_roundtrip_noF4_refuted", "C13_roundtrip_partial"],
+    # the round trip for every image of the grammar, any depth (guard model/AhtRoundTrip.v rt_ok;
+    # proofs/AhtRoundTripProofs.v; concluded with C03c_grammar_trees)
+    "more": [{"module": "C13r", "target": "props/C13r.vo",
+              "theorems": ["C13_round_trip_partial", "C13_round_trip_tokens", "C13r_expressible_guard_refuted",
+                           "C13r_numeral_guard"]}],
     "correspond": correspond,
     "statement": "auto_head_tail raises exactly on an AND/OR/Bool operation without operand; otherwise its result "
                  "equals the input, only empty heads/tails became one blank, it is idempotent and leaves its "
                  "argument untouched (snapshot, implementation only); for layout-free trees the grammar can express "
-                 "the printed result parses back to the input: refuted (F4, F15), proved for flat AND/OR of plain "
-                 "words, the guarded statement is validated by correspondence only",
+                 "the printed result parses back to the input: refuted (F4, F15); PROVED (C13r.v, C13_round_trip_partial) for "
+                 "every tree inside the executable guard rt_ok, any depth and width: operations with >= 2 operands "
+                 "nested as the parser nests them (an operation directly under a same-or-higher-precedence operation, "
+                 "NOT, +, -, a field or ^ is wrapped in a Group; a FieldGroup exactly under a field), words / phrases / "
+                 "regexes / field names that are single lexemes (words not AND/OR/NOT), ~ on a word or phrase, ^ on "
+                 "what BOOST takes as a whole, degrees that print as [0-9.] numerals reading back to the same number, "
+                 "no operand of an implicit operation but the first starting with + - TO (contains not-F4), no "
+                 "lexeme fusion at `<`/`>` or at a field's colon (contains not-F15; `year:2020` is inside); each guard "
+                 "component has a computed witness replayed on the implementation (re-association without the Group is "
+                 "not a luqum defect). Validated by correspondence only: bracketed ranges, signed operands in "
+                 "juxtaposition outside F4 (`a +b`), degrees that are not canonical numerals (Decimal('1.0')), trees "
+                 "with partial layout",
     "trusted_base": [
         "Coq 8.16.1 kernel (vm_compute used for table facts, witnesses and correspondence; no native_compute)",
         "no axioms (Print Assumptions: closed under the global context)",
@@ -786,7 +836,10 @@ SPEC = {
         "hand-written models coq/model/AutoHeadTail.v (transformer), Eq.v (clone_item, __eq__), Print.v, "
         "Lexer.v/LR.v/Actions.v/Parser.v (parser), tied by differential correspondence on every run",
         "value-based tree model: a Python object shared between two positions is not modelled",
-        "the round trip clause beyond the proved family is validated by correspondence only",
+        "the round trip clause outside the guard rt_ok (C13r.v) is validated by correspondence only; inside it the "
+        "theorem stands on C03c_grammar_trees (LR driver on the generated tables) and on the lexer model",
+        "executable guard coq/model/AhtRoundTrip.v rt_ok, evaluated on the model for every generated tree and "
+        "compared with the implementation's round trip",
     ],
     "assumptions": ["trees contain only luqum.tree classes with attributes as the constructors leave them "
                     "(wf_node: implicit degree/force at its default, force normalised)",
